@@ -60,6 +60,9 @@ type advCase struct {
 	// StopHook places the stop request inside an operation: "fwd" = inside the
 	// first forwarding read, "write" = inside the first socket write, that begins
 	// at or after StopHookAfter; the request is made StopHookDelay later.
+	// LinkOnDial: the k-th (1-based) successful dial is followed, before the
+	// task's goroutines exist, by a link-state event (0 = none).
+	LinkOnDial int
 	// Monitor runs a Monitor task instead of an Advertiser (C10 faults).
 	Monitor bool
 	// ReportK1: report a loss with the K1 signature as the known finding (C07
@@ -145,6 +148,13 @@ func advRun(t *testing.T, c *advCase) *advResult {
 		h.st.ReadLatency = c.FwdLat
 		h.connSetup = func(cn *vfake.Conn) {
 			cn.WriteLatency = c.WriteLat
+			if c.LinkOnDial != 0 && cn.Gen == c.LinkOnDial {
+				h.tr.Add(vfake.Event{Kind: "link_event", Msg: "queued while the connection was being set up"})
+				select {
+				case h.watchC <- 2:
+				default:
+				}
+			}
 			if c.WriteErrKind != "" && cn.Gen == 1 {
 				first := 1
 				if c.UnicastOnly {
